@@ -458,3 +458,18 @@ func TestErrString(t *testing.T) {
 		t.Errorf("expected 'short packet', got %q", ErrShortPacket.Error())
 	}
 }
+
+func TestParsePacketDeclaredLengthBelowHeader(t *testing.T) {
+	for length := 0; length < 4; length++ {
+		data := []byte{0x01, 0x01, 0x00, byte(length), 0xAA}
+		if _, _, _, err := ParsePAPPacket(data); err != ErrShortPacket {
+			t.Fatalf("PAP length %d: want ErrShortPacket, got %v", length, err)
+		}
+		if _, _, _, err := ParseCHAPPacket(data); err != ErrShortPacket {
+			t.Fatalf("CHAP length %d: want ErrShortPacket, got %v", length, err)
+		}
+		if _, _, _, err := ParseIPv6CPPacket(data); err != ErrShortPacket {
+			t.Fatalf("IPv6CP length %d: want ErrShortPacket, got %v", length, err)
+		}
+	}
+}
